@@ -7,12 +7,14 @@ from . import common as C
 CLAUSES = {
     "C08": {"build", "declared", "coverage", "lookup", "stream_sem", "stream"},
     "C09": {"build", "build_error", "coverage", "lookup", "stream_sem", "stream"},
+    "C02": {"stream_sem", "stream"},       # C02 over pipeline operations: the stream clauses only
 }
 
 
-def run_pipes(prop, tier, seed, replay, stages, rule, nontrivial):
-    run = C.Run(prop, tier, seed, "model_checking")
-    d = C.outdir(prop)
+def run_pipes(prop, tier, seed, replay, stages, rule, nontrivial, run=None, finish=True):
+    chained = run is not None
+    run = run or C.Run(prop, tier, seed, "model_checking")
+    d = C.outdir(prop + ("_pipes" if chained else ""))
     hb = C.build_harness()
     cases = os.path.join(d, "cases.ndjson")
     any_mc = False
@@ -20,7 +22,7 @@ def run_pipes(prop, tier, seed, replay, stages, rule, nontrivial):
         rec = json.load(open(replay))
         with open(cases, "w") as f:
             for fl in rec["failures"]:
-                if fl.get("replay_case"):
+                if fl.get("replay_case") and fl["replay_case"].get("k") == "pipe":
                     f.write(json.dumps(fl["replay_case"]) + "\n")
     else:
         open(cases, "w").close()
@@ -61,10 +63,16 @@ def run_pipes(prop, tier, seed, replay, stages, rule, nontrivial):
     run.traces += s["cases"]
     run.evaluations += s["cases"]
     nt = [c for c in case_list if nontrivial(c)]
+    if chained:
+        run.nontrivial += len(nt)
+        run.samples = run.samples[:3] + nt[:2]
+        run.rule += " || " + rule
+        run.extra.update({"pipeline_cases": s["cases"]})
+        return run
     run.nontrivial = len(nt)
     run.samples = nt[:3]
     run.exhaustive = any_mc
     run.rule = rule
     run.extra = {"cases": s["cases"], "cases_with_real_container_files_as_sources": len([c for c in case_list if c.get("files")])}
     run.assumptions = ["delivered bytes are identified by decoding with the DECLARED codec and comparing with the sources' raw payloads"]
-    return run.finish()
+    return run.finish() if finish else run
